@@ -9,6 +9,7 @@ import math
 import numpy as np
 
 from .common import (fr, frs, parse_ints, parse_nums, parse_floatbits, all_close, close, quiet)
+from .common import guarded
 from . import vario
 
 INFO = dict(
@@ -32,6 +33,7 @@ def observe(V):
     return edges, d, groups, counts, exp, diffs
 
 
+@guarded
 def check_case(ctx, case, V=None):
     try:
         if V is None:
